@@ -669,84 +669,116 @@ def _end_guard(fn, cmp, use):
     return True
 
 
+def _point_lookups(fx, fn, is_id, depth=0):
+    """Points a function looks up.  is_id(node) -> label for an expression denoting a point id.
+    -> {label: {"tests": set, "exists_ok": bool, "node": node}}; a point id handed to a helper with a body is
+    followed into the helper (its parameter takes the role of the id)."""
+    out = {}
+    lookups = {}
+    for node in fn.walk():
+        if node.get("k") != "DeclStmt":
+            continue
+        for d in node.get("decls", []) or []:
+            init = d.get("init")
+            if init is None:
+                continue
+            for x in walk(init):
+                if x.get("k") == "CXXMemberCallExpr" and strip_targs(x.get("callee") or "").endswith("::find"):
+                    args = F.call_args(x)
+                    lab = is_id(args[0]) if args else None
+                    if lab is not None:
+                        lookups[d["decl"]] = {"label": lab, "node": node, "tests": set(), "uses": [], "endcmp": []}
+    for node in fn.walk():
+        k = node.get("k")
+        if k not in ("CXXMemberCallExpr", "CallExpr", "CXXOperatorCallExpr"):
+            continue
+        name = strip_targs(node.get("callee") or "").rsplit("::", 1)[-1]
+        if k == "CXXOperatorCallExpr":
+            for a in F.call_args(node):
+                if a.get("k") == "DeclRefExpr" and a["ref"].get("decl") in lookups:
+                    if node.get("op") in ("==", "!="):
+                        lookups[a["ref"]["decl"]]["endcmp"].append(node)
+                    elif node.get("op") in ("*", "->"):
+                        lookups[a["ref"]["decl"]]["uses"].append(node)
+            continue
+        if name == "find":
+            continue
+        involved = set()
+        obj = F.call_object(node) if k == "CXXMemberCallExpr" else None
+        for part in ([obj] if obj is not None else []) + list(F.call_args(node)):
+            for x in walk(part):
+                if x.get("k") == "DeclRefExpr" and x["ref"].get("decl") in lookups:
+                    involved.add(x["ref"]["decl"])
+        for dcl in involved:
+            lookups[dcl]["tests"].add(name)
+        # a point id handed to a helper
+        if not involved and depth < 3:
+            callee = fx.functions.get(node.get("calleeKey") or "")
+            if callee is not None and callee.body is not None and callee.key != fn.key:
+                for ai, a in enumerate(F.call_args(node)):
+                    lab = is_id(a)
+                    if lab is None or ai >= len(callee.params):
+                        continue
+                    pdecl = callee.params[ai]["decl"]
+                    inner = _point_lookups(fx, callee, lambda n, pd=pdecl: "param" if (n.get("k") == "DeclRefExpr" and n["ref"].get("decl") == pd) else None,
+                                           depth + 1)
+                    if inner:
+                        e = out.setdefault(lab, {"tests": set(), "exists_ok": True, "node": node, "via": []})
+                        for v in inner.values():
+                            e["tests"] |= v["tests"]
+                            e["exists_ok"] = e["exists_ok"] and v["exists_ok"]
+                        e["via"].append(short(callee.qn))
+    for dcl, v in lookups.items():
+        e = out.setdefault(v["label"], {"tests": set(), "exists_ok": True, "node": v["node"], "via": []})
+        e["tests"] |= v["tests"]
+        guarded = bool(v["endcmp"]) and all(any(_end_guard(fn, c, u) for c in v["endcmp"]) for u in v["uses"])
+        e["exists_ok"] = e["exists_ok"] and guarded
+    return out
+
+
 def rule_revision_lookup_siblings(ctx):
     """LocalRevision decides per observation whether it takes part in the adjustment: every point the
-    observation refers to is looked up (`PD.find(obs->from())`, `to()`, `bs()`, `fs()`), must exist, and must
-    pass the status tests the observation type needs (active_xy/test_xy, active_z/test_z).  All points of
-    one observation need the same coordinates, so inside one handler every looked-up point must be put
-    through the same *set* of tests (directly, or through a helper that receives it), and the existence test
-    must come before the first use.  A copy-paste slip that tests one point twice and another not at all
+    observation refers to (`obs->from()`, `to()`, `bs()`, `fs()`) is looked up, must exist, and must pass the
+    status tests the observation type needs (active_xy/test_xy, active_z/test_z).  All points of one
+    observation need the same coordinates, so inside one handler every point must be put through the same
+    *set* of tests - inline or in a helper that receives the id - and the existence test must come before
+    the first use of the lookup result.  A copy-paste slip that tests one point twice and another not at all
     keeps an observation to a removed point in the adjustment."""
+    from collections import Counter
     fx = ctx.facts
     cls = "GNU_gama::local::LocalRevision"
     fx.cls(cls)
     n = 0
     n_handlers = 0
     for m in sorted(fx.methods_of(cls), key=lambda f: f.name):
-        if m.body is None or m.name == "visit" or m.rec.get("ctor"):
+        if m.body is None or m.name == "visit" or m.rec.get("ctor") or len(m.params) != 1:
             continue
-        lookups = {}
-        for node in m.walk():
-            if node.get("k") != "DeclStmt":
-                continue
-            for d in node.get("decls", []) or []:
-                init = d.get("init")
-                if init is None:
-                    continue
-                finds = [x for x in walk(init) if x.get("k") == "CXXMemberCallExpr"
-                         and strip_targs(x.get("callee") or "").endswith("::find")]
-                if not finds:
-                    continue
-                args = F.call_args(finds[0])
-                what = F.expr_text(args[0]) if args else d["name"]
-                lookups[d["decl"]] = {"what": what, "node": node, "tests": set(), "uses": [], "endcmp": []}
-        if not lookups:
+        obs = m.params[0]["decl"]
+
+        def is_id(node, obs=obs):
+            if node is not None and node.get("k") == "CXXMemberCallExpr" and "PointID" in (node.get("t") or ""):
+                o = F.call_object(node)
+                if o is not None and o.get("k") == "DeclRefExpr" and o["ref"].get("decl") == obs:
+                    return F.expr_text(node).replace(" ", "")
+            return None
+        pts = _point_lookups(fx, m, is_id)
+        if not pts:
             continue
         n_handlers += 1
         ctx.saw(m)
-        for node in m.walk():
-            k = node.get("k")
-            if k in ("CXXMemberCallExpr", "CallExpr", "CXXOperatorCallExpr"):
-                name = strip_targs(node.get("callee") or "").rsplit("::", 1)[-1]
-                if k == "CXXOperatorCallExpr":
-                    if node.get("op") in ("==", "!="):
-                        for a in F.call_args(node):
-                            if a.get("k") == "DeclRefExpr" and a["ref"].get("decl") in lookups:
-                                lookups[a["ref"]["decl"]]["endcmp"].append(node)
-                    elif node.get("op") in ("*", "->"):
-                        for a in F.call_args(node):
-                            if a.get("k") == "DeclRefExpr" and a["ref"].get("decl") in lookups:
-                                lookups[a["ref"]["decl"]]["uses"].append(node)
-                    continue
-                if name == "find":
-                    continue
-                involved = set()
-                obj = F.call_object(node) if k == "CXXMemberCallExpr" else None
-                for part in ([obj] if obj is not None else []) + list(F.call_args(node)):
-                    for x in walk(part):
-                        if x.get("k") == "DeclRefExpr" and x["ref"].get("decl") in lookups:
-                            involved.add(x["ref"]["decl"])
-                for dcl in involved:
-                    lookups[dcl]["tests"].add(name)
-        sets = [frozenset(v["tests"]) for v in lookups.values()]
-        # the reference is the set most lookups of this handler agree on; with two lookups that differ
-        # both are reported - one of them is wrong and reading decides which
-        from collections import Counter
-        cnt = Counter(sets)
-        top = cnt.most_common()
+        sets = [frozenset(v["tests"]) for v in pts.values()]
+        top = Counter(sets).most_common()
         ref = top[0][0] if (len(top) == 1 or top[0][1] > top[1][1]) else None
-        for dcl, v in sorted(lookups.items(), key=lambda kv: kv[1]["what"]):
+        for lab, v in sorted(pts.items()):
             n += 1
             same = (len(set(sets)) == 1) or (ref is not None and frozenset(v["tests"]) == ref)
-            ctx.report("R-SIB", "LocalRevision::%s:%s:same-tests" % (m.name, v["what"].replace(" ", "")), same,
-                       m.where(v["node"]), m.short,
+            ctx.report("R-SIB", "LocalRevision::%s:%s:same-tests" % (m.name, lab), same, m.where(v["node"]), m.short,
                        "" if same else "the point %s is put through %s, the other point(s) of this observation through %s"
-                       % (v["what"], sorted(v["tests"]) or "no status test",
-                          sorted(ref) if ref is not None else [sorted(s) for s in set(sets) if s != frozenset(v["tests"])]))
+                       % (lab, sorted(v["tests"]) or "no status test",
+                          sorted(ref) if ref is not None else [sorted(x) for x in set(sets) if x != frozenset(v["tests"])]),
+                       {"tests": sorted(v["tests"]), "via": v.get("via", [])})
             n += 1
-            guarded = bool(v["endcmp"]) and all(any(_end_guard(m, c, u) for c in v["endcmp"]) for u in v["uses"])
-            ctx.report("R-SIB", "LocalRevision::%s:%s:exists-before-use" % (m.name, v["what"].replace(" ", "")), guarded,
-                       m.where(v["node"]), m.short,
-                       "" if guarded else "the result of %s is used without a preceding comparison with end()" % v["what"])
+            ctx.report("R-SIB", "LocalRevision::%s:%s:exists-before-use" % (m.name, lab), v["exists_ok"], m.where(v["node"]), m.short,
+                       "" if v["exists_ok"] else "the result of looking up %s is used without a preceding comparison with end()" % lab)
     ctx.floor("R-SIB", 10, n_handlers, "LocalRevision handlers with point lookups")
     ctx.floor("R-SIB", 40, n, "lookup obligations in LocalRevision")
